@@ -655,15 +655,16 @@ def payLeftAsGasFee (cfg : Cfg) (l : Led) (sender : String) : Led :=
   let have_ := l.getBal sender
   payAdmins cfg (l.setBal sender 0) have_
 
-/-- `transfer` (both balances are read before either is written) -/
-def transfer (l : Led) (frm to : String) (v : Int) : Option Led :=
-  if v = 0 then some l
-  else
-    let fv := l.getBal frm
-    if fv < v then none
-    else
-      let tv := l.getBal to
-      some ((l.setBal frm (fv - v)).setBal to (tv + v))
+/-- `transfer`: `none` = "not sufficient funds", a negative amount is refused; the receiver's
+balance is read after the sender has been debited -/
+inductive XferErr | funds | badAmount
+deriving Repr, DecidableEq
+
+def transfer (l : Led) (frm to : String) (v : Int) : Except XferErr Led :=
+  if v = 0 then .ok l
+  else if v < 0 then .error .badAmount
+  else if l.getBal frm < v then .error .funds
+  else .ok ((l.setBal frm (l.getBal frm - v)).setBal to ((l.setBal frm (l.getBal frm - v)).getBal to + v))
 
 -- ------------------------------------------------------------------------------------ proofs
 
@@ -733,8 +734,9 @@ def applyBxh (env : Env) (l0 : Led) (tx : Tx) (invalid : Option String) : Led ×
         else (l0, .error e, gasBVM)
     | .xfer f t amt =>
       match transfer l0 f t (amt.getD 0) with
-      | some l' => (l', .ok "", gasNormal)
-      | none => (l0, .error "funds", gasNormal)
+      | .ok l' => (l', .ok "", gasNormal)
+      | .error .funds => (l0, .error "funds", gasNormal)
+      | .error .badAmount => (l0, .error "bad-amount", gasNormal)
     | .bvm _ c m args =>
       match applyBvm env l0 c m args with
       | .ok (l', ret) => (l', .ok ret, gasBVM)
